@@ -194,7 +194,7 @@ Example c13_penalty_regression :
   nf_val (cs (run ex_genesis ex_kf1_ops)) 1 3 = 120000 /\ nf_val (cs (run ex_genesis ex_kf1_ops)) 1 2 = 0.
 Proof. exact kf1_regression. Qed.
 
-(* C13-F2 (repaired in /repo, fix: PENDING): a generation-2 surplus auction: the start takes the lot (500)
+(* C13-F2 (repaired in /repo, fix: 67f334a): a generation-2 surplus auction: the start takes the lot (500)
    out of the collector and the books, the close pays the bidder out of the auction module account and
    moves neither: 1500 coins against 1500 recorded (before the fix: 1000 against 2000) *)
 Example c13_surplus_close_regression :
@@ -216,7 +216,7 @@ Example c13_rate_change_after_surplus_close_regression :
   holds_C13_flow [1; 2] [1; 2; 3] s (UpdLookup 1 2 50000000000000000 1000 500 500 500 [3500000000000000000]) s' = true.
 Proof. exact kf2_rate_change_regression. Qed.
 
-(* C13-F3 (repaired in /repo, fix: PENDING): a generation-2 debt auction close with 700 of the secondary
+(* C13-F3 (repaired in /repo, fix: 40dff76): a generation-2 debt auction close with 700 of the secondary
    asset minted for the bidder and DebtToken = 500 arriving: 500 is booked, the former witness is backed *)
 Example c13_debt_close_regression :
   forallb valid_op ex_kf3_ops = true /\ forallb kf_free ex_kf3_ops = true /\
